@@ -28,11 +28,10 @@ theorem DLog.default (prog : List COp) (s : Nat) : DLog s {} { prog := prog } :=
   constructor <;> simp [stage, logpos, FramesOk.nil, framesIn_nil]
   all_goals (simp [cv, step, Sys.init, readMap, readerInit, readMapAt, readMapCore, nth])
 
-theorem DLogP.worker (s : Nat) (cl : Client) (st st' : Stream) (he : st'.cam.emptyEvery = st.cam.emptyEvery)
-    (h : st.cam.emptyEvery = 0 → cl.misused = false → DLog s st cl → DLog s st' cl) (hp : DLogP s st cl) : DLogP s st' cl := by
-  intro b c
-  rw [he] at b
-  exact h b c (hp b c)
+theorem DLogP.worker (s : Nat) (cl : Client) (st st' : Stream)
+    (h : cl.misused = false → DLog s st cl → DLog s st' cl) (hp : DLogP s st cl) : DLogP s st' cl := by
+  intro _ c
+  exact h c (hp (Here.intro _) c)
 
 /-- **the storage log is a run of consecutive committed frames, in every state of every schedule** -/
 theorem DLog.micro : ∀ rt, MReach rt → ∀ s, DLogP s (getS rt s) rt.client := by
@@ -44,16 +43,16 @@ theorem DLog.micro : ∀ rt, MReach rt → ∀ s, DLogP s (getS rt s) rt.client 
     · exact DLog.default prog s
   · intro s a ha rt hr hg h
     refine all_setS_cl DLogP rt s _ ?_ h
-    exact DLogP.worker s rt.client _ _ (src_keeps_script s a ha _).2
-      (fun he hm hd => DLog.src s rt.client a ha _ hg (DUse.micro rt hr s he hm) hd) (h s)
+    exact DLogP.worker s rt.client _ _
+      (fun hm hd => DLog.src s rt.client a ha _ hg (DUse.micro rt hr s (Here.intro _) hm) hd) (h s)
   · intro s a ha rt _ hg h
     refine all_setS_cl DLogP rt s _ ?_ h
-    exact DLogP.worker s rt.client _ _ (flt_keeps_script a ha _).2
-      (fun _ _ hd => DLog.flt s rt.client a ha _ hg hd) (h s)
+    exact DLogP.worker s rt.client _ _
+      (fun _ hd => DLog.flt s rt.client a ha _ hg hd) (h s)
   · intro s a ha rt hr hg h
     refine all_setS_cl DLogP rt s _ ?_ h
-    exact DLogP.worker s rt.client _ _ (snk_keeps_script s a ha _).2
-      (fun he hm hd => DLog.snk s rt.client rt.state a ha _ hg (TInvAll.micro rt hr s) (DUse.micro rt hr s he hm) hd) (h s)
+    exact DLogP.worker s rt.client _ _
+      (fun hm hd => DLog.snk s rt.client rt.state a ha _ hg (TInvAll.micro rt hr s) (DUse.micro rt hr s (Here.intro _) hm) hd) (h s)
   · intro a ha rt hr hg h
     exact client_families DLog.Kept DLog.client_base DLog.client_mon DLog.client_cfg DLog.client_start DLog.client_err
       DLog.client_stop DLog.client_acc DLog.client_flush a ha rt (TInvAll.micro rt hr) (DUse.micro rt hr) hg h
